@@ -40,8 +40,8 @@ LEAN = {"module": "Pygom.Props.C07",
         "required": ["Pygom.C07.sens_index_spec", "Pygom.C07.sens_index_spec_IV", "Pygom.C07.grad_is_chain_rule",
                      "Pygom.C07.gradIV_is_chain_rule", "Pygom.C07.grad_is_chain_rule_partial",
                      "Pygom.C07.grad_order_counterexample", "Pygom.C07.model_variant"]}
-BUDGET = {"quick": {"cases": 420, "exact": 40, "per_batch": 12, "history": 448, "timedep": 192, "select": 144},
-          "thorough": {"cases": 6000, "exact": 300, "per_batch": 20, "history": 4800, "timedep": 1920, "select": 1440}}
+BUDGET = {"quick": {"cases": 420, "exact": 40, "per_batch": 12, "history": 448, "timedep": 144, "select": 144},
+          "thorough": {"cases": 6000, "exact": 300, "per_batch": 20, "history": 4800, "timedep": 1440, "select": 1440}}
 RULE = ("random bounded models and catalogue models as in C06; theta, x0, grids; 1-3 observed states in any order; target_param "
         "subsets in any order; target_state subsets in any order; five loss classes (non-unit weights for Square and Normal "
         "only, whose cost uses them); integrator methods lsoda / vode / ivode / dopri5 / dop853 on a share of cases; plus "
